@@ -4,8 +4,8 @@ From Inovesa Require Import Model.Wisdom Gen.Gen_Wisdom Proofs.WisdomP.
 Import ListNotations.
 Local Open Scope Z_scope.
 
-(** FSPath::append creates the directory of the file (both facts read off src/IO/FSPath.cpp) *)
-Definition main_mkdir : bool := fspath_append_validates && fspath_validate_creates_parent.
+(** FSPath's constructor and FSPath::append create the directory of the file (facts read off src/IO/FSPath.cpp) *)
+Definition main_mkdir : bool := fspath_ctor_validates && fspath_append_validates && fspath_validate_creates_parent.
 
 (** every definition of prepareFFT builds its path with FSPath::append, imports before the wisdom-only plan, and plans,
     THEN exports, only when that plan was not made *)
